@@ -373,6 +373,75 @@ func (in *inst) pureElem(x ast.Expr, pos token.Pos, depth int) bool {
 	return false
 }
 
+// foreignObjects: types of other packages whose objects ice holds in its structs and that are NOT
+// safe for concurrent use. A method call on such an object is recorded as an access to the object
+// itself (identified by its address): a write, unless the method is listed as read-only. Objects
+// that are safe for concurrent use (vellum.FST, zstd Encoder/Decoder through EncodeAll/DecodeAll,
+// segment.Data) are deliberately absent.
+var foreignObjects = map[string]map[string]bool{
+	"github.com/blevesearch/vellum.Reader":      {},
+	"github.com/blevesearch/vellum.FSTIterator": {},
+	"github.com/blevesearch/vellum.Iterator":    {"Current": true},
+	"github.com/blevesearch/vellum.Builder":     {},
+	"github.com/RoaringBitmap/roaring.Bitmap": {"Contains": true, "ContainsInt": true, "GetCardinality": true, "IsEmpty": true, "Iterator": true,
+		"ReverseIterator": true, "ManyIterator": true, "Clone": true, "ToArray": true, "String": true, "GetSizeInBytes": true,
+		"GetSerializedSizeInBytes": true, "WriteTo": true, "ToBytes": true, "MarshalBinary": true, "Minimum": true, "Maximum": true,
+		"Rank": true, "Select": true, "Equals": true, "Intersects": true, "AndCardinality": true, "OrCardinality": true,
+		"HasRunCompression": true, "Stats": true, "Iterate": true},
+	"github.com/RoaringBitmap/roaring.IntPeekable": {"HasNext": true, "PeekNext": true},
+	"github.com/RoaringBitmap/roaring.IntIterable": {"HasNext": true},
+	"bytes.Reader": {"Len": true, "Size": true},
+	"bufio.Writer": {"Available": true, "Buffered": true, "Size": true},
+}
+
+// foreignCall: is c a method call on an object of a foreignObjects type? Returns the receiver and
+// whether the method mutates it.
+func (in *inst) foreignCall(c *ast.CallExpr) (recv ast.Expr, write, ok bool) {
+	sel, isSel := c.Fun.(*ast.SelectorExpr)
+	if !isSel {
+		return nil, false, false
+	}
+	s, has := in.info.Selections[sel]
+	if !has || s.Kind() != types.MethodVal {
+		return nil, false, false
+	}
+	t := in.info.TypeOf(sel.X)
+	if t == nil {
+		return nil, false, false
+	}
+	if p, isPtr := t.(*types.Pointer); isPtr {
+		t = p.Elem()
+	}
+	n, isNamed := t.(*types.Named)
+	if !isNamed || n.Obj().Pkg() == nil {
+		return nil, false, false
+	}
+	ro, known := foreignObjects[n.Obj().Pkg().Path()+"."+n.Obj().Name()]
+	if !known {
+		return nil, false, false
+	}
+	return sel.X, !ro[sel.Sel.Name], true
+}
+
+// declaredBefore: every variable x mentions is declared before pos (the step is inserted ahead of
+// the statement, so a variable declared by the statement's own init clause - `if v := s.f; v.g` -
+// is not in scope there; such an access is left to the statement's other recorded accesses).
+func (in *inst) declaredBefore(x ast.Expr, pos token.Pos) bool {
+	if pos == token.NoPos {
+		return true
+	}
+	ok := true
+	ast.Inspect(x, func(n ast.Node) bool {
+		if id, isID := n.(*ast.Ident); isID {
+			if o, isVar := in.info.Uses[id].(*types.Var); isVar && !o.IsField() && o.Parent() != in.pkg.Types.Scope() && o.Pos() >= pos {
+				ok = false
+			}
+		}
+		return true
+	})
+	return ok
+}
+
 func (in *inst) accessesAt(pos token.Pos, nodes ...ast.Node) (out []access, extra bool) {
 	writes := map[ast.Expr]bool{}
 	elems := map[string]access{}
@@ -392,6 +461,41 @@ func (in *inst) accessesAt(pos token.Pos, nodes ...ast.Node) (out []access, extr
 		if rank[kind] > rank[old.elem] {
 			elems[key] = access{base: b, field: "[]", elem: kind, write: kind != 'r'}
 		}
+	}
+	addObj := func(x ast.Expr, write bool) {
+		for {
+			if p, ok := x.(*ast.ParenExpr); ok {
+				x = p.X
+				continue
+			}
+			break
+		}
+		if !in.pureElem(x, pos, 0) {
+			return
+		}
+		// the object is identified by its address: a pointer (or interface holding one) as is, an
+		// addressable value through &
+		var b ast.Expr = x
+		if tv, ok := in.info.Types[x]; ok {
+			switch tv.Type.Underlying().(type) {
+			case *types.Pointer, *types.Interface:
+			default:
+				if !tv.Addressable() {
+					return
+				}
+				b = &ast.UnaryExpr{Op: token.AND, X: x}
+			}
+		}
+		key := "obj:" + exprString(b)
+		old, seen := elems[key]
+		if !seen {
+			elemOrder = append(elemOrder, key)
+		}
+		kind := byte('o')
+		if write || old.elem == 'O' {
+			kind = 'O'
+		}
+		elems[key] = access{base: b, field: "*", elem: kind, write: kind == 'O'}
 	}
 	// guarded: depth of enclosing conditionally evaluated operands (right side of && and ||):
 	// hoisting an element base out of them could dereference a nil the guard protects against
@@ -437,6 +541,9 @@ func (in *inst) accessesAt(pos token.Pos, nodes ...ast.Node) (out []access, extr
 			walkElems(v.Index, false)
 			return
 		case *ast.CallExpr:
+			if recv, write, ok := in.foreignCall(v); ok {
+				addObj(recv, write)
+			}
 			name := ""
 			switch f := v.Fun.(type) {
 			case *ast.Ident:
@@ -579,7 +686,7 @@ func (in *inst) accessesAt(pos token.Pos, nodes ...ast.Node) (out []access, extr
 				return false
 			case *ast.SelectorExpr:
 				if in.sharedField(v) {
-					if b, ok := in.baseExpr(v.X); ok {
+					if b, ok := in.baseExpr(v.X); ok && in.declaredBefore(v.X, pos) {
 						key := exprString(b) + "." + v.Sel.Name + fmt.Sprint(writes[v])
 						if !seen[key] {
 							seen[key] = true
@@ -721,7 +828,7 @@ func (in *inst) stepStmt(pos token.Pos, site string, accs []access) ast.Stmt {
 		}
 		if a.elem != 0 {
 			in.nelem++
-			fn := map[byte]string{'r': "RE", 'w': "WE", 'a': "AE"}[a.elem]
+			fn := map[byte]string{'r': "RE", 'w': "WE", 'a': "AE", 'o': "RO", 'O': "WO"}[a.elem]
 			args = append(args, &ast.CallExpr{Fun: in.rt(fn), Args: []ast.Expr{base}})
 			continue
 		}
